@@ -525,7 +525,7 @@ pub fn run(ctx: &Ctx, rep: &mut Report) {
     }
     if ctx.replay.is_none() {
         // the <= 1-attribute slice through the real pipeline
-        let inputs: Vec<crate::conform::Input> = cases.iter().filter(|c| c.kind != "interleave" && !c.vector.is_empty() && c.input.matches("#[").count() <= 1 && !c.input.contains(") = 5") && !c.input.trim_start().starts_with("#[derive_ex") && !c.input.trim_start().starts_with("#[::derive_ex")).map(|c| crate::conform::Input { entry: crate::expand::Entry::Attr, attr: c.attr.clone(), item: c.input.clone() }).collect();
+        let inputs: Vec<crate::conform::Input> = cases.iter().filter(|c| c.kind != "interleave" && !c.vector.is_empty() && c.input.matches("#[").count() <= 1 && !c.input.contains(") = 5") && !c.input.trim_start().starts_with("#[derive_ex") && !c.input.trim_start().starts_with("#[::derive_ex") && !c.input.contains("cfg_attr(all(), allow")).map(|c| crate::conform::Input { entry: crate::expand::Entry::Attr, attr: c.attr.clone(), item: c.input.clone() }).collect();
         crate::conform::validate_or_die(rep, "c14p", &inputs);
     }
 }
